@@ -15,6 +15,7 @@ MODULES = {
     "C05": "harness.rewrite",
     "C06": "harness.rewrite",
     "C08": "harness.rewrite",
+    "C09": "harness.rewrite",
     "C14": "harness.dwarf",
     "C15": "harness.cfi_eval",
 }
